@@ -66,11 +66,15 @@ def expand(text, macros, depth=0):
             out.append(m[1])
             i += 1
         else:
-            if i + 1 < len(toks) and toks[i + 1] == '(':
-                r = split_args(toks, i + 1)
+            # blanks (spaces, TABs) may separate the name of a function-like macro from the '(' of a call
+            i1 = i + 1
+            while i1 < len(toks) and toks[i1] and set(toks[i1]) <= set(' \t'):
+                i1 += 1
+            if i1 < len(toks) and toks[i1] == '(':
+                r = split_args(toks, i1)
                 if r is not None:
                     args, j = r
-                    if len(m[1]) == 0 and len(args) == 1 and not ''.join(args[0]).strip():
+                    if len(m[1]) == 0 and len(args) == 1 and not ''.join(args[0]).strip(' \t'):
                         args = []
                     if len(args) == len(m[1]):
                         sargs = [''.join(a) for a in args]
@@ -134,9 +138,6 @@ def gen_macro_case(rng, cid, nmac):
             if not ok_ or depth_ != 0:
                 body = body.replace('(', '').replace(')', '')
             body = body.strip() or '0'
-            # a call of a macro without parameters written with blanks between its parentheses, `f( )`, is an open
-            # finding with its own witness (zero_param_blank): not generated
-            body = re.sub(r'\(\s+\)', '()', body)
             ebody = expand(body, {k_: v for k_, v in macros.items() if k_ not in ps})
             macros[name] = ('fun', ps, ebody)
             lines.append('#define %s(%s) %s\n' % (name, ','.join(ps), body))
